@@ -82,14 +82,19 @@ Bad(G, what) == [G EXCEPT !.bad = Append(@, what)]
 
 \* first offer of an item and of the unit of work it belongs to (a pallet for a splitter's items)
 UnitOf(G, x) == IF G.it[x].pl[1] = "pal" THEN G.it[x].pl[2] ELSE x
-MarkOfferedE(G, x, t, n, j) ==
-  LET u == UnitOf(G, x)
-      G1 == IF G.it[x].offered < 0
-            THEN [G EXCEPT !.it[x].offered = t, !.it[x].offE = j,
-                           !.nd = IF n > 0 THEN [@ EXCEPT ![n].nOff = @ + 1] ELSE @]
-            ELSE G
+\* cnt: the offer commits the item to edge j (index policies); a splitter that offers an item has taken it out of
+\* the pallet (pallet.items.pop): from then on the item is held by the splitter itself, not packed any more
+MarkOfferedC(G, x, t, n, j, cnt) ==
+  LET u  == UnitOf(G, x)
+      G0 == IF n > 0 /\ G.it[x].pl[1] = "pal" /\ Node(n).type = "splitter" /\ G.it[G.it[x].pl[2]].pl = <<"node", n>>
+            THEN [G EXCEPT !.it[x].pl = <<"node", n>>, !.it[x].unit = FALSE] ELSE G
+      G1 == IF G0.it[x].offered < 0
+            THEN [G0 EXCEPT !.it[x].offered = t, !.it[x].offE = IF cnt THEN j ELSE 0,
+                            !.nd = IF cnt /\ n > 0 THEN [@ EXCEPT ![n].nOff = @ + 1] ELSE @]
+            ELSE G0
   IN IF G1.it[u].uoff < 0 THEN [G1 EXCEPT !.it[u].uoff = t] ELSE G1
-MarkOffered(G, x, t) == MarkOfferedE(G, x, t, 0, 0)
+MarkOfferedE(G, x, t, n, j) == MarkOfferedC(G, x, t, n, j, TRUE)
+MarkOffered(G, x, t) == MarkOfferedC(G, x, t, 0, 0, FALSE)
 
 InPos(n, j)  == PosOf(Node(n).ins, j)
 OutPos(n, j) == PosOf(Node(n).outs, j)
@@ -106,7 +111,7 @@ FStep(G0, ev) ==
          IN IF ev.k = "rp" /\ ev.it > 0 /\ ev.it <= Len(G.it) THEN MarkOfferedE(G1, ev.it, ev.t, ev.n, ev.e) ELSE G1
     [] ev.k = "canput" /\ ev.it > 0 /\ ev.it <= Len(G.it) ->
          \* a FIRST_AVAILABLE probe loop asks several edges; only an index policy commits to the probed edge
-         IF Node(ev.n).policy_out = "FIRST_AVAILABLE" THEN MarkOffered(G, ev.it, ev.t)
+         IF Node(ev.n).policy_out = "FIRST_AVAILABLE" THEN MarkOfferedC(G, ev.it, ev.t, ev.n, 0, FALSE)
          ELSE MarkOfferedE(G, ev.it, ev.t, ev.n, ev.e)
     [] ev.k = "put" /\ ev.res = "ok" ->
          LET x  == ev.it
@@ -116,7 +121,7 @@ FStep(G0, ev) ==
                              !.it[x].due = -1, !.it[x].offered = -1, !.it[x].offE = 0, !.it[x].crStamp = IF @ < 0 THEN ev.t ELSE @,
                              !.nd[ev.n].pushes = Append(@, OutPos(ev.n, ev.e)),
                              !.nd[ev.n].exp = @ \ {x}]
-         IN IF G.it[x].pl = <<"node", ev.n>> THEN [G1 EXCEPT !.nd[ev.n].held = @ - 1] ELSE G1
+         IN IF G.it[x].pl = <<"node", ev.n>> /\ G.it[x].unit THEN [G1 EXCEPT !.nd[ev.n].held = @ - 1] ELSE G1
     [] ev.k = "get" /\ ev.res = "item" ->
          LET x  == ev.it
              n  == ev.n
@@ -151,10 +156,10 @@ FStep(G0, ev) ==
     [] ev.k = "ctr" ->
          CASE ev.key = "disc" ->
                 IF ev.it > 0 /\ ev.it <= Len(G.it)
-                THEN LET x == ev.it G0m == MarkOffered(G, ev.it, ev.t)
+                THEN LET x == ev.it G0m == MarkOfferedC(G, ev.it, ev.t, ev.n, 0, FALSE)
                          G1 == [G0m EXCEPT !.it[x].pl = <<"disc", ev.n>>, !.it[x].unit = FALSE,
                                                       !.nd[ev.n].disc = @ + 1, !.nd[ev.n].exp = @ \ {x}]
-                     IN IF G.it[x].pl = <<"node", ev.n>> THEN [G1 EXCEPT !.nd[ev.n].held = @ - 1] ELSE G1
+                     IN IF G.it[x].pl = <<"node", ev.n>> /\ G.it[x].unit THEN [G1 EXCEPT !.nd[ev.n].held = @ - 1] ELSE G1
                 ELSE [G EXCEPT !.nd[ev.n].disc = @ + 1]
            [] ev.key = "recv" -> [G EXCEPT !.nd[ev.n].recv = @ + 1]
            [] ev.key = "proc" -> [G EXCEPT !.nd[ev.n].proc = @ + 1]
@@ -338,7 +343,8 @@ T_C15_Recorded ==
   e.k = "final" => \A n \in 1..NN :
       /\ (Node(n).type \in {"machine", "splitter"}) =>
              (e.nodes[n].sel_in = [i \in 1..Len(F.nd[n].pulls) |-> F.nd[n].pulls[i] - 1]
-              \/ (Len(e.nodes[n].sel_in) = Len(F.nd[n].pulls) + 1 /\ Node(n).policy_in # "FIRST_AVAILABLE"
+              \* (an index policy records at consultation, a splitter at commitment: both may be one ahead of the pulls)
+              \/ (Len(e.nodes[n].sel_in) = Len(F.nd[n].pulls) + 1 /\ (Node(n).policy_in # "FIRST_AVAILABLE" \/ Node(n).type = "splitter")
                   /\ \A i \in 1..Len(F.nd[n].pulls) : e.nodes[n].sel_in[i] = F.nd[n].pulls[i] - 1))
       /\ (Node(n).type \in {"machine", "splitter", "combiner"} /\ Node(n).policy_out = "FIRST_AVAILABLE" /\ Node(n).blocking) =>
              (e.nodes[n].sel_out = [i \in 1..Len(F.nd[n].pushes) |-> F.nd[n].pushes[i] - 1]
@@ -359,7 +365,7 @@ T_C16_SplitterEmits ==
   [][(e'.k = "put" /\ e'.res = "ok" /\ Node(e'.n).type = "splitter") =>
         LET n == e'.n x == e'.it IN
           /\ x \in F.nd[n].exp
-          /\ (F.it[x].pl = <<"node", n>>) => F.nd[n].exp = {x}]_vars     \* the pallet itself comes last
+          /\ (F.it[x].pl = <<"node", n>> /\ F.it[x].unit) => F.nd[n].exp = {x}]_vars     \* the pallet itself comes last
 T_C16_SplitterDone ==
   [][(e'.k = "get" /\ e'.res = "item" /\ Node(e'.n).type = "splitter") => F.nd[e'.n].exp = {}]_vars
 
